@@ -201,7 +201,7 @@ Print Assumptions C10_last_definition_wins.
 
 Example C10_last_definition_wins_nonvacuous :
   rmap ex_view (create_flows ex_fuel ex_params ex_wbs) =
-  Ok ([sX; sA; sC_r1; sC_r2], [(1, sA); (1, sA); (1, sC); (1, sC)],
+  Ok ([sX; sA; sC_r1; sC_r2], [(1, sA); (1, sA); (1, sC); (1, sC)], [s_t1; s_t1; []; []],
       [mk_ocamp sCamp (0, sC1) s_g2], [mk_otrig (0, sT1) 0 sX]).
 Proof. exact ex_run. Qed.
 Print Assumptions C10_last_definition_wins_nonvacuous.
